@@ -285,8 +285,9 @@ def replay_c03(tu: codec.TypeUnit, cex: dict, on: str) -> typing.Tuple[bool, str
     return bad, f"wire={wire.hex()} decoded object={o2['obj'].hex()[:64]} differs from the cast-adjusted original: {bad}"
 
 
-PAIRS_QUICK = [("default", "little"), ("default", "any+asserts")]
-PAIRS_ALL = [("default", "little"), ("default", "any+asserts"), ("little", "little+asserts"), ("any+asserts", "little+asserts")]
+PAIRS_QUICK = [("default", "little"), ("default", "any+asserts"), ("default", "cpp14")]
+PAIRS_ALL = [("default", "little"), ("default", "any+asserts"), ("little", "little+asserts"), ("any+asserts", "little+asserts"),
+             ("default", "cpp14"), ("cpp14", "cpp17"), ("cpp14", "cpp14+little+asserts")]
 
 
 def _work(a):
@@ -296,6 +297,9 @@ def _work(a):
     try:
         tua = cc.unit_for(t, on_a, "B")
         tub = cc.unit_for(t, on_b, "B") if on_b else None
+    except cc.NotCovered as e:
+        lg = codec.QueryLog(); lg.notes.append(f"NOT COVERED [{on_a}{' vs ' + on_b if on_b else ''}]: {e}")
+        return [(ti, on_a, "not covered", lg, None, 0.0)]
     except Exception as e:
         lg = codec.QueryLog(); lg.unknown.append(f"build failed: {str(e)[-300:]}")
         return [(ti, on_a, "build", lg, None, 0.0)]
@@ -323,7 +327,7 @@ def main(tier: str) -> int:
     with common.scratch("nvc03_") as d:
         types, feats = cc.prepare(tier, d, optnames)
         _TYPES[:] = types
-        tasks = [(i, "chain", on, None) for on in (("default", "little") if tier == "quick" else optnames) for i in range(len(types))]
+        tasks = [(i, "chain", on, None) for on in (("default", "little", "cpp14") if tier == "quick" else optnames) for i in range(len(types))]
         tasks += [(i, "cross", a, b) for a, b in pairs for i in range(len(types))]
         for res in common.pmap(_work, tasks):
             for ti, on, what, lg, tu, wall in res:
@@ -334,8 +338,8 @@ def main(tier: str) -> int:
                           data="all object bytes / all buffer bytes symbolic")
     rep.assumptions = ["bool storage bytes are 0 or 1", "cast-mode adjustment of integers/floats is stated directly on the field terms (saturate/truncate, float16 faithful "
                        "rounding); the wire layout reference model is NOT used, except to tell which decoded fields are meaningful for a wire shape",
-                       "cross-target C <-> C++ <-> Python agreement is staged (C++/Python executors not landed): NOT covered"]
-    rep.not_covered = ["C++ and Python targets, C++ standard / allocator / container options", "types not in the corpus"]
+                       "cross-target: C <-> C++ is covered through the mirror harness (valid objects only on the C++ side); Python is NOT covered"]
+    rep.not_covered = ["Python target", "C++ pmr/cetl allocator and container flavours, C++ bit arrays", "types not in the corpus"]
     rep.extra["explanation"] = ("llsym: symbolic execution continued across serialize -> deserialize -> serialize; z3 proves decoded == cast-adjusted original and "
                                 "byte-identical re-serialization on every path; two option builds executed on the same symbolic input and their path summaries paired")
     rep.extra["trusted_base"] = ["clang 14", "z3 5.1", "llsym interpreter", "pydsdl"]
